@@ -199,7 +199,7 @@ pub fn c16_path_suffix_rep4_n5() {
     path_suffix::<5, 4>()
 }
 
-// @h prop=C16 tier=thorough kind=check timeout=1800 mem=20 bound="uri::Path value <= 2 bytes x prefix 'a'" encodes="PathImpl::suffix;NormalizedSegmentsImpl;utils::pct_eq;PathMutImpl::push (Vec growth from empty: one allocation of the harness capacity)"
+// @h prop=C16 tier=thorough kind=check timeout=2400 mem=40 bound="uri::Path value <= 2 bytes x prefix 'a'" encodes="PathImpl::suffix;NormalizedSegmentsImpl;utils::pct_eq;PathMutImpl::push (Vec growth from empty: one allocation of the harness capacity)"
 #[cfg_attr(kani, kani::proof)]
 #[cfg_attr(kani, kani::unwind(5))]
 #[cfg_attr(kani, kani::stub(std::vec::Vec::resize, crate::stubs::vec_resize))]
